@@ -69,6 +69,7 @@ class KaniUnit:
             f.write(CARGO_TOML % ('kunit_' + self.name.lower()))
         body = "#![allow(dead_code, unused_variables, unused_imports, unused_mut, unreachable_patterns, unreachable_code, non_camel_case_types, non_snake_case, clippy::all)]\n"
         body += self.crate_attrs
+        body += self._carried_std_uses(''.join(self.parts))
         body += ''.join(self.parts)
         body += "\n#[cfg(kani)]\nmod verif_harness {\n    use super::*;\n" + self.harness_text + "}\n"
         self.lib_path = os.path.join(self.dir, 'src', 'lib.rs')
@@ -77,6 +78,28 @@ class KaniUnit:
         self.has_unwind_attr = {}
         for m in re.finditer(r'((?:\s*#\[[^\]]*\]\s*)+)fn\s+(\w+)\s*\(', self.harness_text):
             self.has_unwind_attr[m.group(2)] = 'kani::unwind' in m.group(1)
+
+    def _carried_std_uses(self, body):
+        """`use std::...;` items of the source files the snippets come from are carried into the unit (a harmless edit that starts
+        using e.g. `cmp::max` must not make the unit undecided). A name the unit already defines or imports is skipped."""
+        files = []
+        for sn in self.snippets:
+            src = getattr(sn.span, 'src', None)
+            if src is not None and src not in files:
+                files.append(src)
+        have = set(re.findall(r'\b(?:struct|enum|fn|trait|type|const|static|mod)\s+(\w+)', body))
+        for m in re.finditer(r'(?m)^\s*(?:pub\s+)?use\s+([^;]+);', body):
+            have.update(_use_names(m.group(1)))
+        out = []
+        for src in files:
+            for m in re.finditer(r'(?m)^use\s+((?:std|core|alloc)::[^;]+);', src.text):
+                path = ' '.join(m.group(1).split())
+                for (leaf_path, name) in _use_leaves(path):
+                    if name in have or name in ('self', '_'):
+                        continue
+                    have.add(name)
+                    out.append("#[allow(unused_imports)] use %s;   // carried from %s\n" % (leaf_path, src.rel))
+        return ''.join(out)
 
     def _cmd(self, harness, playback=False, extra=()):
         cmd = ['cargo', 'kani', '-Z', 'function-contracts', '-Z', 'stubbing', '--harness', harness]
@@ -126,6 +149,37 @@ class KaniUnit:
             for fu in concurrent.futures.as_completed(futs):
                 results[futs[fu]] = fu.result()
         return results
+
+
+def _use_leaves(path):
+    """`a::b::{c, d as e, self}` -> [('a::b::c', 'c'), ('a::b::d as e', 'e'), ('a::b', 'b')] (one level of braces; glob imports skipped)"""
+    path = path.strip()
+    m = re.match(r'^(.*)::\{(.*)\}$', path, re.S)
+    if not m:
+        if path.endswith('*'):
+            return []
+        mm = re.match(r'^(.*?)(?:\s+as\s+(\w+))?$', path)
+        base = mm.group(1).strip()
+        return [(path, mm.group(2) or base.split('::')[-1])]
+    prefix, inner = m.group(1), m.group(2)
+    if '{' in inner:
+        return []
+    res = []
+    for item in inner.split(','):
+        item = item.strip()
+        if not item or item == '*':
+            continue
+        if item == 'self':
+            res.append((prefix, prefix.split('::')[-1]))
+            continue
+        mm = re.match(r'^(.*?)(?:\s+as\s+(\w+))?$', item)
+        base = mm.group(1).strip()
+        res.append(("%s::%s" % (prefix, item), mm.group(2) or base.split('::')[-1]))
+    return res
+
+
+def _use_names(path):
+    return [n for (_, n) in _use_leaves(path)]
 
 
 def _kill_cbmc_for(d):
